@@ -76,7 +76,11 @@ func cmdGen(args []string) {
 		// every case has its own PRNG derived from (seed, index): a case replays alone
 		r := rand.New(rand.NewSource(seed*1000003 + int64(i)))
 		w.Linef("case %d", i)
-		c.Gen(r, i, func(s string) { w.Line(args[0] + " " + s) })
+		prefix := args[0]
+		if px, ok := c.(interface{ Prefix() string }); ok {
+			prefix = px.Prefix() // generator variants emit ops of their base component
+		}
+		c.Gen(r, i, func(s string) { w.Line(prefix + " " + s) })
 	}
 }
 
